@@ -360,6 +360,7 @@ def _call(ctx: Ctx, cls: str, meth: str, args: dict, oracle: Any, flags: dict, k
 
 def rule_layout(ctx: Ctx) -> None:
     """TT-BIASLAST, TT-PATCH, TT-GEOM, TT-SHAPEFN, TT-ROUNDTRIP (C15)."""
+    ctx.do(rule_pad_dom)
     ctx.do(rule_patch_geom)
     p = ctx.prog
     ctx.assumptions.add('A3')
@@ -436,6 +437,38 @@ def rule_layout(ctx: Ctx) -> None:
                           f'[{tag}] set_grad writes {b[3][1] if b else "nothing"} into bias.grad; specified: the last column with the bias\' own shape (OUT), contiguous', b[2] if b else f_s.node)
             else:
                 ctx.check(b is None, 'TT-ROUNDTRIP', f_s, f'[{tag}] no bias write without bias', f'{tag} bias write-back', f'[{tag}] set_grad writes bias.grad although the module has no bias', b[2] if b else f_s.node)
+
+
+def rule_pad_dom(ctx: Ctx) -> None:
+    """DOM-PAD: no exit of _extract_patches lies before the zero-padding step unless its guard speaks about the padding.
+
+    A must-pass-through check on the statement structure, independent of the tensor interpreter: a fast path
+    that returns above the padding step drops the padded border for the configurations it accepts, whatever
+    it computes (kernel 1x1 with padding 1 is a legal Conv2d).
+    """
+    from kfv import flow
+    p = ctx.prog
+    ctx.rule('DOM-PAD', 'every return of _extract_patches that precedes the padding step is guarded by a test on the padding', floor=1)
+    f = p.lookup_method(CONV, '_extract_patches')
+    if f is None:
+        raise AnalysisIncomplete('_extract_patches not found')
+    body = f.body
+    def has_pad(st: ast.AST) -> bool:
+        return any(isinstance(n, ast.Call) and ((isinstance(n.func, ast.Attribute) and n.func.attr == 'pad') or (isinstance(n.func, ast.Name) and n.func.id == 'pad')) for n in ast.walk(st))
+    idx = [i for i, st in enumerate(body) if has_pad(st)]
+    if not idx:
+        ctx.ok('DOM-PAD', f, 'no padding call in _extract_patches itself (TT-GEOM decides the padded geometry)', f.node)
+        return
+    first = idx[0]
+    for i, st in enumerate(body):
+        for r in (n for n in ast.walk(st) if isinstance(n, ast.Return)):
+            if i >= first:
+                ctx.ok('DOM-PAD', f, f'return at line {r.lineno} follows the padding step', r)
+                continue
+            tests = [norm(g.test) for g in flow.guards(p, f, r)]
+            ctx.check(any('padding' in t or 'pad' in t for t in tests), 'DOM-PAD', f, f'return before the padding step under {tests}', 'early-return',
+                      f'_extract_patches returns at line {r.lineno} before the input is zero-padded, under the guard {tests or "(none)"} which does not exclude padded '
+                      'configurations: the patches of such a layer lose the padded border (wrong out_h / out_w, spatial divisor and A factor)', r)
 
 
 def rule_patch_geom(ctx: Ctx) -> None:
